@@ -87,6 +87,8 @@ impl<'a> Case<'a> {
     fn stem(&self, f: usize) -> &'static str {
         if self.twin().is_some() && f == 5 {
             "c"
+        } else if f == 3 && self.c["casetwin"] == json!(1) && self.twin().is_none() {
+            "A"                 // CASE TWINS: files 2 and 3 are `a.lua` and `A.lua`, two different files of one directory
         } else {
             NAMES[f - 1]
         }
@@ -128,7 +130,7 @@ impl<'a> Case<'a> {
                 _ => format!("./{}/{}", &self.dir(t)[4..], if sp % 2 == 1 && self.kind(t) != "missing" { self.file_name(t) } else { self.stem(t).to_string() }),
             };
         }
-        let stem = NAMES[t - 1];
+        let stem = self.stem(t);
         let full = self.file_name(t);
         let data = self.kind(t) == "data";
         let from_sub = self.dir(f) == "src/sub";
